@@ -168,8 +168,21 @@ def run(ctx):
         w2.set(n2, **attrs)
         r = I2.call(I2.global_name("nsf", "neutron_scattering"),
                     [{A2["element"]: q[0], A2["element2"]: q[1]}], {"density": rho, "wavelength": lam})
-        ctx.check(r == (None, None, None), "R5", f"compound with an atom whose {label} gives (None, None, None)",
-                  f"returned {_s(r)}", site)
+        if "b_c" in attrs:
+            ctx.check(r == (None, None, None), "R5", f"compound with an atom whose {label} gives (None, None, None)",
+                      f"returned {_s(r)}", site)
+        else:
+            # an atom that has neutron data but whose element has no tabulated bulk density (radium): the compound's density is
+            # given, so the result is that of the equations, the same as if the bulk density were known
+            w3 = neutron_world(ctx)
+            full = w3.I.call(w3.I.global_name("nsf", "neutron_scattering"),
+                             [{w3.atoms["element"]: q[0], w3.atoms["element2"]: q[1]}], {"density": rho, "wavelength": lam})
+            okr = isinstance(r, tuple) and len(r) == 3 and r[0] is not None and isinstance(r[0], tuple)
+            ctx.check(okr, "R5", "compound (density given) with an atom that has neutron data but no bulk density of its own: computed, not (None, None, None)",
+                      f"returned {_s(r, 80)} although every atom has neutron data and the density was given", site,
+                      witness="neutron_sld('RaCl2', density=4.9)")
+            if okr:
+                eq(ctx, "R5", "... and equal to the result with the bulk density known (the atom's own density is not used)", r[0][0], full[0][0], site)
         r = I2.call(I2.getattr(n2, "sld"), [], {"wavelength": lam})
         ctx.check(r == (None, None, None), "R5", f"Neutron.sld when {label} gives (None, None, None)",
                   f"returned {_s(r)}", fsite(ctx, "nsf.Neutron.sld"))
